@@ -6,7 +6,7 @@
    at the end.  [all_conns P 0 0 conns Ts] says P of every connection
    (k = its session number, b = position of its first request, its script,
    its trace); [ex r T] is the sub-trace of the exchange of request r. *)
-From Coq Require Import List Bool Arith.
+From Coq Require Import List Bool Arith NArith.
 From Martian.C02 Require Import Model Proofs_Refine Proofs_Clauses Proofs_Oracle Proofs_Main Proofs_Conc.
 Import ListNotations.
 
@@ -261,10 +261,10 @@ Proof. vm_compute. reflexivity. Qed.
 
 (* concurrent clause: a schedule interleaving three connections *)
 Example C02_example_schedule :
-  conc_run 0 [0; 1; 0; 2; 1; 0] = [(0, 0, 0); (1, 1, 1); (0, 2, 0); (2, 3, 2); (1, 4, 1); (0, 5, 0)]
+  (conc_run 0 [0; 1; 0; 2; 1; 0] = [(0, 0, 0); (1, 1, 1); (0, 2, 0); (2, 3, 2); (1, 4, 1); (0, 5, 0)]
   /\ conc_ok (conc_run 0 [0; 1; 0; 2; 1; 0]) = true
   /\ conc_ok [(0, 0, 0); (1, 0, 1)] = false          (* a repeated context ID *)
-  /\ conc_ok [(0, 0, 0); (1, 1, 0)] = false.         (* two connections, one session *)
+  /\ conc_ok [(0, 0, 0); (1, 1, 0)] = false)%N.      (* two connections, one session *)
 Proof. repeat split; reflexivity. Qed.
 
 (* clause attribution: the hypothesis is met by the pinned commit's hijack trace *)
